@@ -30,17 +30,20 @@ PROPERTY = {
     'manifest': {
         'text': 'Lean 4 theorem C05.close_once over every finite history (any threads, any defaults): no span is ever reported closed twice, a reported span\'s slot is cleared '
                 '(refs 0, no parent), by an invariant carried through the try_close cascade; children-before-parents and the F2 negation are kernel-decided witnesses. '
-                'The "never earlier / exactly when handles+entered+open children reaches zero" clause is decided per history by running the real Registry (two recording layers: close '
-                'notifications, data readable inside on_close, presence afterwards) against the compiled model AND against the count-free specification Spec/RegistrySpec.lean; '
-                'its unbounded proof (refs = handles + entries + open children) is not yet in the theorem file.',
+                'C05.refcount_sum: in every history a program can perform (clone / drop / enter through a handle it holds, explicit parents that are live, any finite set of threads, own default), at every point the stored '
+                'reference count of every span still in the registry = handles held + threads entered on + children still open, by an accounting invariant that allows one span to hold one reference too many while try_close '
+                'cascades up the parent chain (which ends: a parent is always an older span); hence closed_means_nothing_left (never earlier) and nothing_left_means_gone (not later). '
+                'The real Registry (two recording layers: close notifications, data readable inside on_close, presence afterwards) is compared with the compiled model AND with the count-free specification Spec/RegistrySpec.lean.',
         'note': 'Trusted: Lean kernel; propext/Classical.choice/Quot.sound; sharded_slab (fresh key per checkout, clear runs Clear; ids mapped to creation indices); sequential at op granularity '
                 '(the fetch_sub race is argued, not modelled); known finding F2 (exit/clear close through the CURRENT default; under no/foreign default parents leak or the wrong registry is hit) is the excluded region.',
         'technique': 'Lean 4 proof (invariant over histories) of a hand-written model + differential run against the real Registry',
     },
-    'lean_module': 'TracingModel.Props.C05',
+    'lean_module': 'TracingModel.Props.C05R',
+    'leanchecker_modules': ['TracingModel.Props.C05'],
     'namespace': 'C05',
     'units': [],
-    'required_theorems': ['C05.close_once', 'C05.step_inv', 'C05.tryClose_inv', 'C05.f2_witness'],
+    'required_theorems': ['C05.close_once', 'C05.step_inv', 'C05.tryClose_inv', 'C05.f2_witness',
+                          'C05.refcount_sum', 'C05.closed_means_nothing_left', 'C05.nothing_left_means_gone', 'C05.tryClose_acc', 'C05.step_acc'],
     'streams': [
         Stream('own', 'h_registry', gen=gen, nontrivial=nontrivial, spec_mode='spec'),
         Stream('f2', 'h_registry', gen=gen_f2, nontrivial=nontrivial, spec_mode='spec'),
